@@ -1110,6 +1110,118 @@ theorem wraps_carries_counter_snapshot (coro : Bool) (carried : Option Int) :
     ∧ attrAfterDecorate dDeprecated coro carried = carried ∧ attrAfterDecorate dRequireKwargs coro carried = carried := by
   cases coro <;> simp [attrAfterDecorate, dTrace, dTimer, dDeprecated, dRequireKwargs, select, findWrapper]
 
+/-! ### Re-entrant calls: recursion and callbacks -/
+
+/-- **one increment per invocation, whatever happens inside**: for ANY meaning `callee` of the callable underneath — it may re-enter this
+    very wrapper, emit increments of its own, raise, hand out a coroutine — an invocation of the `count_calls` wrapper adds exactly one
+    `incr` (and the message) in front of the callee's events and passes result and world through.  The counter is moved in place
+    (`+=`), not written back from a snapshot taken before the call. -/
+theorem count_calls_once_per_invocation (p : Params) (inner : Fn) (callee : Sem) (a : Args) (w : World) :
+    callLayer dCountCalls p inner callee a w =
+      ((callee a w).1, .incr inner.depth 1 :: .print inner.depth :: (callee a w).2.1, (callee a w).2.2) := by
+  rcases h : callee a w with ⟨r, evs, w1⟩
+  cases r with
+  | exc e => simp [dCountCalls, callLayer, select, findWrapper, runWrapper, execL, exec, execCall, calleeSem, mkFrame, mkArgs, h]
+  | ret v => simp [dCountCalls, callLayer, select, findWrapper, runWrapper, execL, exec, execCall, calleeSem, mkFrame, mkArgs, bindVar, evalExpr, lookup, h]
+
+/-- the re-entrant semantics extends the plain one -/
+theorem callWith_none : ∀ (f : Fn), callWith none f = call f := by
+  intro f
+  induction f with
+  | body b =>
+    have h : ∀ bd, runBodyRe none .wrapped b bd = runBody .wrapped b bd := by
+      intro bd; funext w; simp [runBodyRe, runBody]
+    funext a w; simp [callWith, call, callBodyRe, callBody, h]
+  | bound s i ih => funext a w; simp [callWith, call, ih]
+  | deco d p i ih => simp [callWith, call, ih]
+
+
+/-- what the caller of a re-entrant run is shown, against the twin semantics -/
+def ReMeets (o : Out) (s : ROut) : Prop :=
+  o.1.tag = s.res ∧ o.2.1.filter (isBodyOf .wrapped) = s.calls ∧ sumIncr 0 o.2.1 = s.n ∧ o.2.2 = s.w
+
+theorem specReent_res_not_coro (b : Body) (plan : Nat → List Args) (fuel : Nat) (a : Args) (w : World) :
+    (specReent b plan fuel a w).res ≠ .coro := by
+  cases fuel <;> simp only [specReent] <;> split <;> (try cases b.script w.inv) <;> simp [outcTag]
+
+theorem invokeSem_of_tag (s : Sem) (a : Args) (w : World) (h : (s a w).1.tag ≠ .coro) : invokeSem s a w = s a w := by
+  simp only [invokeSem]
+  split
+  · rename_i run hr; rw [hr] at h; simp [Res.tag] at h
+  · rfl
+
+theorem sumIncr_append (L : Nat) : ∀ (x y : List Ev), sumIncr L (x ++ y) = sumIncr L x + sumIncr L y := by
+  intro x y
+  induction x with
+  | nil => simp [sumIncr]
+  | cons e r ih => simp only [List.cons_append, sumIncr, ih]; omega
+
+theorem runPlan_meets (b : Body) (plan : Nat → List Args) (k : Nat) (sem : Sem)
+    (ih : ∀ a w, ReMeets (sem a w) (specReent b plan k a w)) :
+    ∀ (l : List Args) (w : World),
+      (runPlan sem l w).1.filter (isBodyOf .wrapped) = (specPlan (specReent b plan k) l w).1
+      ∧ sumIncr 0 (runPlan sem l w).1 = (specPlan (specReent b plan k) l w).2.1
+      ∧ (runPlan sem l w).2 = (specPlan (specReent b plan k) l w).2.2 := by
+  intro l
+  induction l with
+  | nil => intro w; simp [runPlan, specPlan, sumIncr]
+  | cons a rest ihl =>
+    intro w
+    obtain ⟨h1, h2, h3, h4⟩ := ih a w
+    have hinv : invokeSem sem a w = sem a w :=
+      invokeSem_of_tag sem a w (by rw [h1]; exact specReent_res_not_coro b plan k a w)
+    simp only [runPlan, specPlan, hinv]
+    obtain ⟨r1, r2, r3⟩ := ihl (sem a w).2.2
+    rw [h4] at r1 r2 r3
+    rw [h4]
+    refine ⟨by simp [List.filter_append, h2, r1], ?_, r3⟩
+    rw [sumIncr_append, h3, r2]; simp
+
+
+/-- one level: `count_calls` directly on a (non-coroutine) function whose body re-enters through `re` -/
+theorem reent_level (p : Params) (b : Body) (hc : b.isCoro = false) (plan : Nat → List Args) (a : Args) (w : World) :
+    -- no re-entrance
+    ReMeets (callWith none (.deco dCountCalls p (.body b)) a w) (specReent b plan 0 a w)
+    -- re-entrance through a callable that meets the twin semantics one level down
+    ∧ ∀ (k : Nat) (sem : Sem), (∀ a w, ReMeets (sem a w) (specReent b plan k a w)) →
+        ReMeets (callWith (some ⟨plan, sem⟩) (.deco dCountCalls p (.body b)) a w) (specReent b plan (k + 1) a w) := by
+  constructor
+  · simp only [callWith, count_calls_once_per_invocation, callBodyRe, specReent, ReMeets]
+    cases hb : bind b.sig a with
+    | none => simp [Res.tag, sumIncr, incrOf, isBodyOf, Fn.depth]
+    | some bd =>
+      cases hs : b.script w.inv <;>
+        simp [hc, runBodyRe, Res.tag, outcRes, outcTag, sumIncr, incrOf, isBodyOf, Fn.depth, World.count, World.bump, hs]
+  · intro k sem ih
+    simp only [callWith, count_calls_once_per_invocation, callBodyRe, specReent, ReMeets]
+    cases hb : bind b.sig a with
+    | none => simp [Res.tag, sumIncr, incrOf, isBodyOf, Fn.depth]
+    | some bd =>
+      obtain ⟨p1, p2, p3⟩ := runPlan_meets b plan k sem ih (plan w.inv) (w.bump .wrapped)
+      have hw : w.bump .wrapped = { w with inv := w.inv + 1 } := rfl
+      rw [hw] at p1 p2 p3
+      cases hs : b.script w.inv <;>
+        simp [hc, runBodyRe, Res.tag, outcRes, outcTag, sumIncr, incrOf, isBodyOf, Fn.depth, World.count, World.bump, hs, p1, p2, p3] <;> omega
+
+/-- **count_calls counts every call once — also calls that start while another call of the same counted function is open**
+    (recursion, re-entrance through a callback): for `count_calls` directly on a function whose body calls the decorated callable
+    again — any plan of nested calls, any depth `fuel`, any arguments, returning / raising / not binding — result, body invocations
+    and world are those of the undecorated recursion, and the counter moves by exactly the number of calls made -/
+theorem count_calls_counts_reentrant (p : Params) (b : Body) (hc : b.isCoro = false) (plan : Nat → List Args) :
+    ∀ (fuel : Nat) (a : Args) (w : World),
+      ReMeets (callFuel (.deco dCountCalls p (.body b)) plan fuel a w) (specReent b plan fuel a w) := by
+  intro fuel
+  induction fuel with
+  | zero => intro a w; exact (reent_level p b hc plan a w).1
+  | succ k ih => intro a w; exact (reent_level p b hc plan a w).2 k _ ih
+
+
+/-- `fact(4)`-like recursion: invocations 0, 1, 2 each call the counted function once more — four calls, the counter stands at 4, four
+    body invocations in the order they start -/
+example : sumIncr 0 (callFuel (.deco dCountCalls p0 (.body b0)) (fun i => if i < 3 then [a0] else []) 4 a0 w0).2.1 = 4
+    ∧ ((callFuel (.deco dCountCalls p0 (.body b0)) (fun i => if i < 3 then [a0] else []) 4 a0 w0).2.1.filter (isBodyOf .wrapped)).length = 4
+    ∧ (specReent b0 (fun i => if i < 3 then [a0] else []) 4 a0 w0).n = 4 := by decide
+
 /-- the counter movements are attributed to the right layer: a second `count_calls` underneath keeps its own count -/
 example : (runHistory (.deco dCountCalls p0 (.deco dCountCalls p0 (.body b0))) [a0, a0, a0] w0).map (fun o => o.2.1.filter (fun e => incrOf 1 e != 0 || incrOf 0 e != 0))
     = [[.incr 1 1, .incr 0 1], [.incr 1 1, .incr 0 1], [.incr 1 1, .incr 0 1]] := by decide
